@@ -421,7 +421,9 @@ func oracle(c *octx) *eng.Violation {
 	case "C07":
 		return first(c.lanesEq("item-trace", projFull, false), c.slots("slot"))
 	case "C08":
-		return first(c.inFlight("upper"), c.nestedInFlight("upper"))
+		// (an execution that is still going on after the run has returned escapes
+		// every bound: the next run's executions come on top of it)
+		return first(c.inFlight("upper"), c.nestedInFlight("upper"), c.postAfterItems(), c.nothingAfterReturn("execution-after-return"))
 	case "C09":
 		if c.sc.Ctx.Kind == "cancel" || c.sc.Ctx.Kind == "deadline" {
 			return first(c.postAfterItems(), c.slotsHonest())
